@@ -60,7 +60,9 @@ func (w *world) arm(pr *proc, f fault) {
 	}
 }
 
-func (w *world) disarm() { w.store.OnMutation = nil }
+func (w *world) disarm() {
+	w.store.OnMutation = append([]func(simbe.Mutation, []byte){}, w.keepMonitors...)
+}
 
 func (w *world) genFault(allow string) fault {
 	tp := w.tp
